@@ -777,5 +777,5 @@ def run(ctx):
 MANIFEST_ENTRY = {
     "technique": "static analysis: abstract evaluation (rules/absint.py, finite universe generated from the value grammar) of the string parser ParsedValue::new, of every string callback of the serde value visitor against it, and of reduce(), oracle = the pieces the string was generated from; symbolic byte-offset evaluation of the splitting functions (tiling, char boundaries); abstract evaluation of Literal::join / reduce_into; the two back-end generators of a value (view, Display) interpreted on 28 value trees x baked / dynamic_load and the code they produce read back into the pieces it renders (rules/gentext.py), incl. the tuple regrouping; the per-locale match arms of interpolated keys generated and read back (own table, own size, own value, nothing else); per-locale provenance check of the remaining generators; the indexing clauses of C11 (check_locales_inner evaluated with the real StringIndexer); abstract evaluation of the t! macro generator (t_macro_inner) with the generated `let` bindings read back by a scope interpreter (each supplied value reaches the setter of its own key, also for `a = b, b = a`); the substitution clause of C06.R0 and the Locale::merge clause of C03.R2 (a locale's own value, the empty string included, is kept); the value-visitor table of C07.R6 (a file value is read as the kind it is written as, floats included); reduce evaluated on values that reduce to nothing (empty string, never null) and on a component without content",
     "level_text": "Structural + finite abstract evaluation: the parser, the visitor callbacks and the reducer are interpreted on every string of a generated universe (literals incl. multibyte / lone delimiters, 3 variable spellings, components nested to depth 3 incl. same-name siblings with spaced tags) and must return exactly the generating pieces in order; the splitting functions are also evaluated symbolically for exact tiling; generators are shown to keep every piece in order and to read each literal from its own locale's table. No crate is built or run.",
-    "level_note": "Trusted: std str search APIs return boundaries; quote!/leptos ordering. Not decided: delimiter pairing choice, HTML rendering. Known on this tree and decided by no clause (DESIGN 11.17, hunts/C01): `$t(..)` between component tags destroys the component; td_display! forwards width / precision to every piece; a stray later closing tag replaces the matching one.",
+    "level_note": "Trusted: std str search APIs return boundaries; quote!/leptos ordering. Not decided: delimiter pairing choice, HTML rendering. Known on this tree and decided by no clause (DESIGN 11.17, hunts/C01): td_display! forwards width / precision to every piece.",
 }
